@@ -37,18 +37,23 @@ def feed (L : LTables) : Option LState → List Ev → Except LoadErr (Option LS
       | .ok _ => feed L (some st) t
       | .error e => .error (.loader e)
 
-def loadBytes (G : Tables) (L : LTables) (bytes : List Nat) : Except LoadErr (Module Inst) :=
-  let r := parse G (fun _ => .continue_) bytes
+/-- what `load_bytes` returns once the callbacks have been replayed -/
+def loadResult (res : PRes PErr Unit) (s : Option LState) : Except LoadErr (Module Inst) :=
+  match res with
+  | .ok _ =>
+    match s with
+    | some st => .ok st.module
+    | none => .error (.panic "no header")
+  | .err e => .error (.parse e)
+  | .panic site => .error (.panic site)
+
+def loadWith (L : LTables) (r : Run) : Except LoadErr (Module Inst) :=
   match feed L none r.trace with
   | .error e => .error e
-  | .ok s =>
-    match r.result with
-    | .ok _ =>
-      match s with
-      | some st => .ok st.module
-      | none => .error (.panic "no header")
-    | .err e => .error (.parse e)
-    | .panic site => .error (.panic site)
+  | .ok s => loadResult r.result s
+
+def loadBytes (G : Tables) (L : LTables) (bytes : List Nat) : Except LoadErr (Module Inst) :=
+  loadWith L (parse G (fun _ => .continue_) bytes)
 
 /-! ### `Display` of the errors -/
 
